@@ -122,7 +122,7 @@ for st in [0] + [BLK - k for k in range(1, 15)]:
 
 
 # ----------------------------------------------- d. reader on arbitrary bytes
-def rd_obl(n, start, tier, timeout=900, fixlen=None):
+def rd_obl(n, start, tier, timeout=900, fixlen=None, calls=None):
     where = "0" if start == 0 else "32768-%d" % (BLK - start)
     defs = {"VP_N": n, "VP_START": start, "VP_SLAB_SIZE": 64, "VP_SCRATCH": 64}
     name = "d.reader-arbitrary-at%s-N%d" % (where, n)
@@ -130,6 +130,9 @@ def rd_obl(n, start, tier, timeout=900, fixlen=None):
     if fixlen is not None:
         defs["VP_FIXLEN"] = fixlen
         name = "d.reader-chain-at%s-N%d-L%d" % (where, n, fixlen)
+    if calls is not None:
+        defs["VP_CALLS"] = calls
+        name += "-C%d" % calls
     return Obl(name, "C15/reader.c",
                real=["log_reader.c", "util/buffer.c"], kit=RT_KIT,
                defs=defs,
@@ -149,7 +152,8 @@ def rd_obl(n, start, tier, timeout=900, fixlen=None):
                     "reporter called iff the reference reports (same byte counts, LDB_CORRUPTION), sticky EOF, terminates",
                bounds="%d arbitrary bytes starting at file offset %s%s" % (
                    n, where, "" if fixlen is None else
-                   ", except that the length fields of the back-to-back records are fixed to %d" % fixlen))
+                   ", except that the length fields of the back-to-back records are fixed to %d" % fixlen) + (
+                   "" if calls is None else "; first %d read calls" % calls))
 
 
 D_QUICK = [(0, 0), (7, 0), (10, 0), (14, 0), (10, BLK - 3), (12, BLK - 9)]
@@ -158,6 +162,7 @@ for n, st in D_QUICK:
 for n in range(0, 25):
     if (n, 0) not in D_QUICK:
         OBLIGATIONS.append(rd_obl(n, 0, "thorough", timeout=1800))
+OBLIGATIONS.append(rd_obl(24, 0, "quick", fixlen=1, calls=2))
 OBLIGATIONS.append(rd_obl(24, 0, "thorough", timeout=3600, fixlen=1))  # chains of 3 fragments (FIRST, bad/MIDDLE, LAST ...)
 OBLIGATIONS.append(rd_obl(32, 0, "thorough", timeout=3600, fixlen=1))
 OBLIGATIONS.append(rd_obl(21, BLK - 14, "thorough", timeout=3600))  # FIRST, bad record | LAST in the next block
